@@ -24,6 +24,7 @@
 #include <kernel/adjacency/permutation.hpp>
 
 #include <algorithm>
+#include <set>
 #include <cmath>
 #include <dirent.h>
 #include <sys/stat.h>
@@ -88,6 +89,48 @@ namespace
   };
   template<typename Shape_> struct CopyTargets<Shape_, -1> { static void go(TargetSetHolder<Shape_>&, const TargetSetHolder<Shape_>&) {} };
 
+  // ---- mesh parts that hold cells: the chosen cells plus all their sub-entities
+  template<typename Mesh_, int f_> struct FaceCollect
+  {
+    static void go(const Mesh_& mesh, const std::vector<Index>& cells, std::vector<std::vector<Index>>& ents)
+    {
+      FaceCollect<Mesh_, f_ - 1>::go(mesh, cells, ents);
+      const auto& is = mesh.template get_index_set<Mesh_::shape_dim, f_>();
+      std::set<Index> st;
+      for(Index cl : cells) for(int j = 0; j < is.num_indices; ++j) st.insert(is[cl][j]);
+      ents[size_t(f_)].assign(st.begin(), st.end());
+    }
+  };
+  template<typename Mesh_> struct FaceCollect<Mesh_, -1> { static void go(const Mesh_&, const std::vector<Index>&, std::vector<std::vector<Index>>&) {} };
+
+  template<typename Shape_, int d_ = Shape_::dimension>
+  struct SetTargets
+  {
+    static void go(TargetSetHolder<Shape_>& dst, const std::vector<std::vector<Index>>& ents)
+    {
+      SetTargets<Shape_, d_ - 1>::go(dst, ents);
+      auto& a = dst.template get_target_set<d_>();
+      for(Index i = 0; i < a.get_num_entities(); ++i) a[i] = ents[size_t(d_)][i];
+    }
+  };
+  template<typename Shape_> struct SetTargets<Shape_, -1> { static void go(TargetSetHolder<Shape_>&, const std::vector<std::vector<Index>>&) {} };
+
+  template<typename Mesh_>
+  std::unique_ptr<MeshPart<Mesh_>> cell_part(const Mesh_& mesh, const std::vector<Index>& cells, bool with_topology, bool reversed)
+  {
+    constexpr int D = Mesh_::shape_dim;
+    std::vector<std::vector<Index>> ents(size_t(D + 1));
+    FaceCollect<Mesh_, D - 1>::go(mesh, cells, ents);
+    ents[size_t(D)] = cells;
+    if(reversed) for(auto& e : ents) std::reverse(e.begin(), e.end());   // non-monotone numbering
+    Index sz[4] = {0, 0, 0, 0};
+    for(int d = 0; d <= D; ++d) sz[d] = Index(ents[size_t(d)].size());
+    std::unique_ptr<MeshPart<Mesh_>> part(new MeshPart<Mesh_>(sz, with_topology));
+    SetTargets<typename Mesh_::ShapeType>::go(part->get_target_set_holder(), ents);
+    if(with_topology) part->deduct_topology(*mesh.get_topology());
+    return part;
+  }
+
   /// builds a node around 'mesh' and checks write -> parse -> write
   template<typename Mesh_>
   void node_case(verif::Ctx& c, std::unique_ptr<Mesh_> mesh, const std::string& tag, int variant)
@@ -148,6 +191,15 @@ namespace
       pts->template get_target_set<0>()[1] = mesh->get_num_entities(0) - 1;
     }
     std::unique_ptr<MeshPart<Mesh_>> internal = bf.make_unique();
+    // parts that hold cells: a region with full topology, a region without topology in non-monotone numbering, a patch-like part of all cells
+    std::unique_ptr<MeshPart<Mesh_>> reg_full, reg_none, patch_all;
+    {
+      std::vector<Index> first, last, all;
+      for(Index i = 0; i < ncells; ++i) { all.push_back(i); if(i < (ncells + 1) / 2) first.push_back(i); if(i >= ncells / 2) last.push_back(i); }
+      reg_full = cell_part<Mesh_>(*mesh, first, true, false);
+      reg_none = cell_part<Mesh_>(*mesh, last, false, true);
+      patch_all = cell_part<Mesh_>(*mesh, all, true, false);
+    }
 
     RootMeshNode<Mesh_> node(std::move(mesh), &atlas);
     const std::string c0 = chart_names.empty() ? std::string() : chart_names.front();
@@ -155,6 +207,9 @@ namespace
     node.add_mesh_part("bnd:topo", std::move(bnd_t));
     node.add_mesh_part("two points", std::move(pts), chart_names.size() > 1 ? chart_names.back() : std::string(), chart_names.size() > 1 ? atlas.find_mesh_chart(chart_names.back()) : nullptr);
     node.add_mesh_part("_internal", std::move(internal));
+    node.add_mesh_part("region:full", std::move(reg_full));
+    node.add_mesh_part("region:none", std::move(reg_none));
+    node.add_mesh_part("patch:0", std::move(patch_all));
 
     PartitionSet ps;
     {
@@ -426,7 +481,9 @@ int main(int argc, char** argv)
     const std::string root = root_env ? root_env : "/verif";
     struct SD { const char* name; const char* type; };
     const SD sds[] = {{"bezier_closed", "conformal:hypercube:2:2"}, {"partitions", "conformal:hypercube:2:2"}, {"edge1d", "conformal:hypercube:1:1"}, {"extrude3d", "conformal:hypercube:3:3"},
-      {"tria2d", "conformal:simplex:2:2"}, {"quad2d", "conformal:hypercube:2:2"}, {"hexa3d", "conformal:hypercube:3:3"}, {"tetra3d", "conformal:simplex:3:3"}};
+      {"tria2d", "conformal:simplex:2:2"}, {"quad2d", "conformal:hypercube:2:2"}, {"hexa3d", "conformal:hypercube:3:3"}, {"tetra3d", "conformal:simplex:3:3"},
+      {"edge1d_cells", "conformal:hypercube:1:1"}, {"tria2d_cells", "conformal:simplex:2:2"}, {"quad2d_cells", "conformal:hypercube:2:2"},
+      {"tetra3d_cells", "conformal:simplex:3:3"}, {"hexa3d_cells", "conformal:hypercube:3:3"}};
     for(auto& sd : sds)
     {
       SeedModel sm; sm.name = sd.name; sm.default_type = sd.type;
